@@ -272,7 +272,7 @@ def FLOOR(
     if significance == 0:
         raise xlerrors.DivZeroExcelError()
 
-    return significance * math.floor(number / significance)
+    return _multiple(number, significance, decimal.ROUND_FLOOR)
 
 
 @xl.register()
